@@ -129,7 +129,7 @@ class Ctx:
                 max_paths=max_paths,
             )
             try:
-                self._paths[key] = interp.run(func)
+                self._paths[key] = interp.run(func, outer_vars=self.alias_vars(module))
             except AnalysisError as exc:
                 self._paths[key] = exc
         if isinstance(self._paths[key], Exception):
@@ -149,6 +149,17 @@ class Ctx:
             return self.paths(module, func, max_iter=2, max_paths=(6 if self.deep else 1) * budget)
         except TooManyPaths:
             return self.paths(module, func, max_iter=1)
+
+    def alias_vars(self, module: Module):
+        """{'np': Name('numpy')}: module aliases are canonicalised in provenance expressions."""
+        cache = self.__dict__.setdefault("_alias_cache", {})
+        if module.name not in cache:
+            out = {}
+            for name, binding in self.res.namespace(module.name).items():
+                if binding.kind == "module" and binding.target in ("numpy", "numpoly") and name != binding.target:
+                    out[name] = ast.Name(id=binding.target, ctx=ast.Load())
+            cache[module.name] = out
+        return cache[module.name]
 
     # -- call graph ---------------------------------------------------------
 
